@@ -87,7 +87,7 @@ def run(pid, tier):
             route(V, p, r, "C06")
         def mut(e):
             e["bus"][0] ^= 4
-        bind = binding_demo(unions, members, d, tag, mutate=mut)
+        bind = binding_demo(unions, members, d, tag, mutate=mut) if not V.viol else {"skipped": "violations were found"}
         g = vlib.read_ndjson(grammar)
         acc = sum(1 for e in g if e["o"] == "ok")
         samples = [{k: e[k] for k in ("toks", "str", "o")} for e in g[1000:1003]] + [{k: e[k] for k in e if k not in ("diff_bus", "diff_stl")} for e in vlib.read_ndjson(eq)[:2]]
@@ -113,7 +113,7 @@ def run(pid, tier):
         def mut(e):
             e["hol"] = e["hol"][1:]
             e["nonbus"] = e["nonbus"][1:]
-        bind = binding_demo(ps[1], members, d, tag, mutate=mut, select=lambda e: e["op"] == "year" and e["name"] in ("tgt", "ldn", "nyc", "fed") and len(e["hol"]) > 2)
+        bind = {"skipped": "violations were found"} if V.viol else binding_demo(ps[1], members, d, tag, mutate=mut, select=lambda e: e["op"] == "year" and e["name"] in ("tgt", "ldn", "nyc", "fed") and len(e["hol"]) > 2)
         evs = vlib.read_ndjson(dump)
         nyears = sum(1 for e in evs if e["op"] == "year")
         cov = dict(states=mc["distinct"] + fixstates, transitions=mc["generated"] + rs[-1].get("generated", 0), action_coverage=checks_cov(mc),
